@@ -109,16 +109,17 @@ register("C09", "proof",
          "reader, info arithmetic, cost <= the library's own readout circuit).", TRUST, "exhaustive enumeration under contracts (GROUND) + tableau oracle", "DESIGN.md 5 (C09)")
 
 register("C10", "proof", TOMO + "All 20 configurations, all 2^n+1 circuits, all outcome masks; the density-matrix map is linear in the values and checked on every basis "
-         "vector e_P (n<=4 quick, n<=5 thorough).", TRUST + " Exact statistics; floats treated as reals; Q2/Q5/Q6 assumed (misreadings surface as refuted obligations).",
+         "vector e_P (n<=4 quick, n<=5 thorough). A relational family carries the contract from the empty preparation circuit to other representations of a preparation "
+         "circuit (gates, user metadata, circuits descending from earlier library measurement circuits): same readout part, same readout info, same fitter values (seeded, bounded).", TRUST + " Exact statistics; floats treated as reals; Q2/Q5/Q6 assumed (misreadings surface as refuted obligations).",
          "native symbolic execution over exact linear forms + normal-form comparison with oracle pull-back", "DESIGN.md 5 (C10-C12)")
 
 register("C11", "proof", TOMO + "Marginalisation contract of CircuitResult.__init__ discharged on all keys of N<=5 bits x all ordered qubit subsets; subset tomography and "
          "stabilizer measurement over the full 2^N outcome space for N=3..5, all ordered 2- and 3-subsets (some seeded), both key modes; key embedding for m=5,6 on ALL "
-         "ordered 5-lists of 6 qubits (thorough: all 5- and 6-lists of 7) plus structured lists up to N=8.",
+         "ordered 5-lists of 6 qubits (thorough: all 5- and 6-lists of 7) plus structured lists up to N=8; preparation-circuit representations as in C10, also with measured-qubit lists.",
          TRUST + " N<=5 (6 thorough); exact statistics; Q2/Q5/Q6 assumed.", "exhaustive marginalisation contract + native symbolic execution over linear forms", "DESIGN.md 5 (C10-C12)")
 
 register("C12", "proof", TOMO + "Pipeline prerequisites (readout circuit exists and is correct for every valid stabilizer) are re-established each run. Every class of every configuration (one seeded signed member each; all classes for n<=5 in quick, 120 per 6-qubit configuration), keys must be "
-         "exactly the unsigned elements of the given group.", TRUST + " Exact statistics; Q2/Q5/Q6 assumed; other members of a class via C03.",
+         "exactly the unsigned elements of the given group; preparation-circuit representations as in C10.", TRUST + " Exact statistics; Q2/Q5/Q6 assumed; other members of a class via C03.",
          "native symbolic execution over exact linear forms + normal-form comparison with oracle pull-back", "DESIGN.md 5 (C10-C12)")
 
 register("C13", "proof",
@@ -132,7 +133,8 @@ register("C13", "proof",
 register("C14", "proof",
          "Format contracts of Stabilizer.__init__/to_list discharged exhaustively: every signed generator string (3*4^n per n, every position) with the column "
          "frame of the parsing loop checked on the AST, all two-string lists for n=2, export/round-trip/mirror, malformed input rejection; graph format on all "
-         "graphs n<=5 (6 thorough); circuit format relative to assumed Q1 (exhaustive for <=2 gates on <=3 qubits).",
+         "graphs n<=5 (6 thorough); circuit format relative to assumed Q1 (exhaustive for <=2 gates on <=3 qubits, on seven circuit representations: register layouts and circuits "
+         "carrying a transpiler layout with a final qubit permutation).",
          TRUST + " Circuit format rests on assumed Q1; cross-format and long circuits seeded (bounded).",
          "exhaustive enumeration under contracts (GROUND) + AST frame", "DESIGN.md 5 (C14)")
 
@@ -146,7 +148,8 @@ register("C15", "proof",
 register("C08", "proof",
          "Stabilizer.validate proved (pyvc, modular over f2.rank's contract) to accept exactly the independent commuting sets for all R/S, n=1..6; the configuration "
          "gate proved for ALL integers and ALL strings by running the real function on representation-hiding proxies (integer regions between its own literals, an "
-         "opaque string); every public entry point x n in 1..8 x 13 names rejects exactly the unadvertised pairs; ALL 2^8 two-qubit X/Z matrix pairs (thorough: all "
+         "opaque string - withdrawn if the name is used beyond ==/!=/membership in a display of literals); every public entry point x n in 1..8 x every documented name, every substring / "
+         "case / padding variant of one, junk names and every name with a table file rejects exactly the unadvertised pairs; ALL 2^8 two-qubit X/Z matrix pairs (thorough: all "
          "2^18 three-qubit pairs) give raise-or-correct for preparation and readout.",
          TRUST + " Invalid inputs for larger n are structured+seeded (bounded); the general claim is the lemma over C16 soundness and validate.",
          "pyvc VC (modular callee contract) + representation-hiding proxies + exhaustive enumeration", "DESIGN.md 5 (C08)")
@@ -156,7 +159,7 @@ register("C16", "proof",
          "the linearity identity Rs*row = check_LC-LHS(A(row)) by ANF normal form, the basis/filter bijection, the span construction, the row-loop body (returns iff all "
          "blocks invertible, returned blocks = A(row)), the gate-word synthesis (raises iff not invertible, word action = block) and check_LC itself; with null_space's "
          "contract from C18 a five-line lemma gives soundness (without validity precondition) and completeness. The top-level contract is cross-checked against brute "
-         "force over all 6^n layers on ALL (group or sub-list, graph) pairs for n<=3, every 4-qubit class x all 64 graphs, and ALL 6^5 members of 5-qubit classes "
+         "force over all 6^n layers on ALL (group or sub-list, graph) pairs for n<=3 incl. lists with a dependent operator (every span element at every position), every 4-qubit class x all 64 graphs, and ALL 6^5 members of 5-qubit classes "
          "without local symmetry (where the search must find one specific layer).",
          TRUST + " 'Any n' is claimed for n<=6 (7) only; itertools.product contract assumed; M6 gate actions.",
          "pyvc segment VCs (ANF + z3) on the real AST + lemma; brute-force GROUND cross-check", "DESIGN.md 5 (C16)")
